@@ -240,7 +240,7 @@ impl<W: Write + io::Seek> Write for ZipWriter<W> {
                     let write_result = w.write(buf);
                     if let Ok(count) = write_result {
                         self.stats.update(&buf[0..count]);
-                        if self.stats.bytes_written > spec::ZIP64_BYTES_THR
+                        if self.stats.bytes_written >= spec::ZIP64_BYTES_THR
                             && !self.files.last_mut().unwrap().large_file
                         {
                             let _inner = mem::replace(&mut self.inner, GenericZipWriter::Closed);
@@ -704,7 +704,7 @@ impl<W: Write + io::Seek> ZipWriter<W> {
         S: Into<String>,
     {
         let mut options = FileOptions::default()
-            .large_file(file.compressed_size().max(file.size()) > spec::ZIP64_BYTES_THR)
+            .large_file(file.compressed_size().max(file.size()) >= spec::ZIP64_BYTES_THR)
             .last_modified_time(file.last_modified())
             .compression_method(file.compression());
         if let Some(perms) = file.unix_mode() {
@@ -1164,7 +1164,7 @@ fn update_local_file_header<T: Write + io::Seek>(
         update_local_zip64_extra_field(writer, file)?;
     } else {
         // check compressed size as well as it can also be slightly larger than uncompressed size
-        if file.compressed_size > spec::ZIP64_BYTES_THR {
+        if file.compressed_size >= spec::ZIP64_BYTES_THR {
             return Err(ZipError::Io(io::Error::new(
                 io::ErrorKind::Other,
                 "Large file option has not been set",
@@ -1333,9 +1333,10 @@ fn write_central_zip64_extra_field<T: Write>(writer: &mut T, file: &ZipFileData)
     // only appear if the corresponding Local or Central
     // directory record field is set to 0xFFFF or 0xFFFFFFFF.
     let mut size = 0;
-    let uncompressed_size = file.uncompressed_size > spec::ZIP64_BYTES_THR;
-    let compressed_size = file.compressed_size > spec::ZIP64_BYTES_THR;
-    let header_start = file.header_start > spec::ZIP64_BYTES_THR;
+    // 0xFFFFFFFF itself is the marker value and cannot be stored in the 32-bit field
+    let uncompressed_size = file.uncompressed_size >= spec::ZIP64_BYTES_THR;
+    let compressed_size = file.compressed_size >= spec::ZIP64_BYTES_THR;
+    let header_start = file.header_start >= spec::ZIP64_BYTES_THR;
     if uncompressed_size {
         size += 8;
     }
